@@ -1,5 +1,5 @@
 import Anything.Lemmas.DisplayValue
-import Anything.Generated.Knobs
+import Anything.Generated.KnobsDefault
 /-!
 # C08 — printed decimals are faithful and never silently truncated
 
